@@ -39,6 +39,7 @@ var checks = map[string][]HarnessSpec{
 		{Name: "verifC08WriteArmed", Pkg: ".", Labels: []string{"writes-done"}},
 		{Name: "verifC08AroundECH", Pkg: ".", Labels: []string{"newconn-ok", "newconn-error"}},
 		{Name: "verifC10Stall", Pkg: ".", Labels: []string{"stall-returned"}},
+		{Name: "verifC08InnerRaw", Pkg: ".", Labels: []string{"inner-refused", "inner-ok"}},
 	},
 	"C09": {
 		{Name: "verifC09KeySets", Pkg: ".", Labels: []string{"ran", "accepted", "passthrough"}},
@@ -59,6 +60,7 @@ var checks = map[string][]HarnessSpec{
 		{Name: "verifC12Raw", Pkg: "./dns", Labels: []string{"decoded", "rejected"}, Quick: TierOpts{LoopLimit: 300}, Thorough: TierOpts{LoopLimit: 300}},
 		{Name: "verifC12Names", Pkg: "./dns", Labels: []string{"decoded", "rejected"}, Quick: TierOpts{LoopLimit: 300}, Thorough: TierOpts{LoopLimit: 300}},
 		{Name: "verifC12RData", Pkg: "./dns", Labels: []string{"decoded", "rejected"}, Quick: TierOpts{LoopLimit: 300}, Thorough: TierOpts{LoopLimit: 300}},
+		{Name: "verifC12Resolve", Pkg: ".", Labels: []string{"resolved-or-error"}},
 		{Name: "verifC12Cycles", Pkg: "./dns", Labels: []string{"rejected"}, Quick: TierOpts{LoopLimit: 300}, Thorough: TierOpts{LoopLimit: 300}},
 	},
 	"C13": {
@@ -92,9 +94,10 @@ var checks = map[string][]HarnessSpec{
 	},
 	"C19": {
 		{Name: "verifC19RoundTrip", Pkg: ".", Labels: []string{"roundtrip", "h3", "https", "plaintext-refused"}},
+		{Name: "verifC19PoolKeys", Pkg: ".", Labels: []string{"keys"}},
 	},
 	"C20": {
-		{Name: "verifC20Publish", Mod: "publish", Pkg: ".", Labels: []string{"published"}},
+		{Name: "verifC20Publish", Mod: "publish", Pkg: ".", Labels: []string{"published", "republished"}},
 	},
 	"SMOKE": {
 		{Name: "verifSmoke", Pkg: "."},
